@@ -157,7 +157,7 @@ CHECKS = [
         "Worker-count independence is composed inside Coq with C03 and C13 (Proofs/GlueSample.v: sample_parallel_eq_serial, "
         "sample_layer_parallel: every schedule of the leaf-visit LTS that returns hands out exactly the leaves, and every "
         "order of the handed-out callbacks gives the serial store). A history-independence probe compares the geometry API "
-        "under interleaved use of both coordinate systems with fresh single-system processes.",
+        "under interleaved use of both coordinate systems with fresh single-system processes. Builder.toast_base option plumbing is modelled too (Model/ToastBaseGlue.v: toast_base_system_rule, toast_base_passes_options_through) and compared over every option combination.",
         "Trusted: toast_tile_get_coords/create_single_tile as the expected coordinates (their geometry is C04/C05), the "
         "image decoders, C15 mask semantics, C03/C13 leaf delivery.",
         "machine-checked proof (Coq) + model/implementation correspondence by vm_compute and per-pixel comparison", "DESIGN.md section 5, C06"),
